@@ -252,6 +252,9 @@ def run_property(prop: str, tier: str, fn: Callable[[Collector, str], None], exp
     }
     EVIDENCE_DIR.mkdir(parents=True, exist_ok=True)
     ev_path.write_text(json.dumps(ev, indent=1, default=str))
+    if os.environ.get("SA_DUMP_OBS"):   # development aid (tools/coverage_map.py): every obligation with its location
+        Path(os.environ["SA_DUMP_OBS"]).mkdir(parents=True, exist_ok=True)
+        (Path(os.environ["SA_DUMP_OBS"]) / f"{prop}.obs.json").write_text(json.dumps([o.__dict__ | {"key": o.key} for o in col.obs], indent=0))
     if rc == 0:
         print(f"[{prop}] OK ({len(col.obs) - len(failed)}/{len(col.obs)} obligations discharged, "
               f"{len(listed)} known finding instance(s)) wall={ev['wall_s']}s")
